@@ -1064,7 +1064,13 @@ fn main() {
             let (ml, mh) = model.positive(code);
             let (nl, nh) = model.negative(code);
             if (p.0.as_secs(), p.1.as_secs(), ng.0.as_secs(), ng.1.as_secs()) != (ml, mh, nl, nh) {
-                vcore::machinery_exit(&format!("TtlConfig built through serde disagrees with the model configuration: {}", c.to_json()));
+                // the bounds the real TtlConfig reports are not the configured ones: "clamped to the
+                // configured bounds" cannot hold - a judged violation, not a harness failure
+                let what = format!(
+                    "TtlConfig reports bounds {:?} for type {code} where ({ml},{mh},{nl},{nh}) are configured",
+                    (p.0.as_secs(), p.1.as_secs(), ng.0.as_secs(), ng.1.as_secs())
+                );
+                ctx.with_local(|l| l.violation("config:bounds-differ-from-the-configured-ones", &what, || c.to_json()));
             }
         }
     }
